@@ -191,9 +191,16 @@ Fixpoint taiko_inspect (flags : list bool) (take combo n : Z) : Z * Z :=
   end.
 
 Definition taiko_n_diff_objects (flags : list bool) : Z := sat_sub (zlen flags) 2.
+Definition taiko_total_hits (flags : list bool) : Z := zlen (filter (fun b => b) flags).
+
+(* since the fix for F6c: "passing the last hit means passing the whole map, including trailing
+   drum rolls and swells" — `take` becomes u32::MAX once it reaches the number of hits *)
+Definition taiko_take (flags : list bool) (take : Z) : Z :=
+  if (0 <? taiko_total_hits flags) && (taiko_total_hits flags <=? take) then U32_MAX else take.
 
 (* create_difficulty_objects: (max_combo, n_diff_objects as left in the out-parameter) *)
 Definition taiko_create (flags : list bool) (take : Z) : Z * Z :=
+  let take := taiko_take flags take in
   let '(combo, n) := taiko_inspect flags take 0 0 in
   if zlen flags <? 2 then (combo, n)             (* early return: no adjustment *)
   else (combo, if (0 <? take) && (0 <? n) then n - 1 else n).
@@ -203,28 +210,35 @@ Definition taiko_oneshot (flags : list bool) (take : Z) : Z * S :=
   let processed := Z.min (sat_sub n 1) (taiko_n_diff_objects flags) in
   (combo, process_range s0 0 processed).
 
-(* TaikoGradualDifficulty after the fix 8d6162b: objects are passed one by one up to the next
-   hit; every object after the second one has a difficulty object (index pos - 2). *)
+(* TaikoGradualDifficulty: objects are passed one by one up to the next hit; every object after
+   the second one has a difficulty object (index pos - 2); the last hit also passes everything
+   that comes after it. *)
 Record tgstate := mk_tg { tg_idx : Z; tg_combo : Z; tg_pos : Z; tg_skill : S }.
 Definition taiko_new : tgstate := mk_tg 0 0 0 s0.
-Definition taiko_total_hits (flags : list bool) : Z := zlen (filter (fun b => b) flags).
 (* usize subtraction *)
 Definition taiko_len (flags : list bool) (g : tgstate) : Z :=
   wrap64 (taiko_total_hits flags - tg_idx g).
 
-(* pass_next_hit on the remaining objects (flags from position pos on).  Returns the state
-   reached; None (with the state left behind) when the objects run out first. *)
-Fixpoint taiko_pass (rest : list bool) (g : tgstate) : option tgstate * tgstate :=
+(* the `while let Some(&is_hit) = self.is_hit.get(self.pos)` loop of pass_next_hit on the
+   remaining objects (flags from position pos on): stops after a hit that is not the last *)
+Fixpoint taiko_pass_loop (total : Z) (rest : list bool) (g : tgstate) : tgstate :=
   match rest with
-  | [] => (None, g)
+  | [] => g
   | h :: tl =>
       let s' := if 2 <=? tg_pos g then process (tg_skill g) (tg_pos g - 2) else tg_skill g in
-      if h then let g' := mk_tg (tg_idx g + 1) (tg_combo g + 1) (tg_pos g + 1) s' in (Some g', g')
-      else taiko_pass tl (mk_tg (tg_idx g) (tg_combo g) (tg_pos g + 1) s')
+      if h then
+        let g' := mk_tg (tg_idx g + 1) (tg_combo g + 1) (tg_pos g + 1) s' in
+        if tg_idx g' <? total then g' else taiko_pass_loop total tl g'
+      else taiko_pass_loop total tl (mk_tg (tg_idx g) (tg_combo g) (tg_pos g + 1) s')
   end.
 
+(* pass_next_hit: None (state untouched) when every hit has been passed already *)
+Definition taiko_pass (flags : list bool) (g : tgstate) : option tgstate * tgstate :=
+  if tg_idx g =? taiko_total_hits flags then (None, g)
+  else let g' := taiko_pass_loop (taiko_total_hits flags) (zskip (tg_pos g) flags) g in (Some g', g').
+
 Definition taiko_next (flags : list bool) (g : tgstate) : option (Z * S) * tgstate :=
-  match taiko_pass (zskip (tg_pos g) flags) g with
+  match taiko_pass flags g with
   | (Some g', _) => (Some (tg_combo g', tg_skill g'), g')
   | (None, g') => (None, g')
   end.
@@ -234,7 +248,7 @@ Fixpoint taiko_nth_loop (flags : list bool) (k : nat) (g : tgstate) : option tgs
   match k with
   | O => (Some g, g)
   | Datatypes.S k' =>
-      match taiko_pass (zskip (tg_pos g) flags) g with
+      match taiko_pass flags g with
       | (Some g', _) => taiko_nth_loop flags k' g'
       | (None, g') => (None, g')
       end
